@@ -16,16 +16,16 @@ theorem kvsOfList_kvArr (l : List (List (Str × Str))) : kvsOfList (kvArr l) = .
   | cons d r ih => simp [kvArr, kvsOfList, kvOfMems_kvObj, ih]
 
 theorem dictList_kvArr (req : List Str) (l : List (List (Str × Str)))
-    (h : l.all (fun d => req.all fun k => hasKey k d) = true) :
+    (h : l.all (fun d => req.all fun k => sdHasKey k d) = true) :
     dictList req (some (.arr (kvArr l))) = .ok l := by
   have h' : (l.all fun d => req.all fun k => d.any fun kv => kv.1 == k) = true := h
   simp [dictList, kvsOfList_kvArr, h']
 
-theorem addRel_id (d : List (Str × Str)) (h : hasKey kRel d = true) : addRel d = d := by
+theorem addRel_id (d : List (Str × Str)) (h : sdHasKey kRel d = true) : jsonAddRel d = d := by
   have h' : (d.any fun kv => kv.1 == kRel) = true := h
-  simp [addRel, h']
+  simp [jsonAddRel, h']
 
-theorem map_addRel_id (l : List (List (Str × Str))) (h : l.all (hasKey kRel) = true) : l.map addRel = l := by
+theorem map_addRel_id (l : List (List (Str × Str))) (h : l.all (sdHasKey kRel) = true) : l.map jsonAddRel = l := by
   induction l with
   | nil => rfl
   | cons d r ih =>
